@@ -160,8 +160,9 @@ pub(crate) mod b {
             }
             n += 1;
         }
-        for bad in ["", "a", "{a", "a}", "{}", "{a,}", "{,a}", "{a b}", "{1a}", "{a-b}", "{a}{b}x", "{*}", "{<a>}"] {
-            if parser::parse_css_tag(bad).map(|v| !v.is_empty()).unwrap_or(false) && bad != "{a}{b}x" {
+        // a text that merely starts with a tag is a label too ("{a}bc" in a box must not lose "bc")
+        for bad in ["", "a", "{a", "a}", "{}", "{a,}", "{,a}", "{a b}", "{1a}", "{a-b}", "{a}{b}x", "{a}bc", "{a} ", " {a}", "{a}}", "{*}", "{<a>}"] {
+            if parser::parse_css_tag(bad).map(|v| !v.is_empty()).unwrap_or(false) {
                 println!("BOUNDED-WITNESS malformed tag accepted: {:?} -> {:?}", bad, parser::parse_css_tag(bad));
                 panic!("malformed tag is text");
             }
